@@ -540,6 +540,19 @@ theorem accepted_config_validated (rxOk : Bytes → Bool) (db : List V) (dq : Li
     (h : load rxOk db dq raw = .ok cfg) : ConfigValidated cfg :=
   load_validated hd hr h
 
+/-- **Every summary a loaded configuration can create steps its buffers by at least a millisecond**: the defaults and
+    every rule with summary options of its own have `max_age / age_buckets ≥ 1ms` (library defaults filled in). This is
+    the range in which the model's "`Observe` and `Gather` return" is faithful to client_golang's catch-up loop
+    (elapsed / stream duration iterations); between 1ns and 1ms the loop is slow to practically endless, and no loaded
+    configuration gets there. -/
+theorem loaded_stream_duration_ge_1ms (rxOk : Bytes → Bool) (db : List V) (dq : List (V × V)) (raw : RawConfig V) (cfg : Config V)
+    (hd : raw.defaults.summaryOpts.ageBuckets < uint32Bound) (hr : ∀ r, r ∈ raw.rules → rawAgeB r < uint32Bound)
+    (h : load rxOk db dq raw = .ok cfg) :
+    minStreamDuration ≤ streamDuration cfg.dMaxAge cfg.dAgeBuckets ∧
+    ∀ r, r ∈ cfg.rules → r.hasSummaryOpts = true → minStreamDuration ≤ streamDuration r.maxAge r.ageBuckets := by
+  have hv := load_validated hd hr h
+  exact ⟨streamDuration_ge_of_ok hv.dSummary, fun r hr' hs => streamDuration_ge_of_ok (hv.ruleSummary r hr' hs)⟩
+
 /-- **A loaded configuration never panics.** Let `cfg` be accepted by the loader (under `LoaderAssumptions`), be
     the current configuration of a pipeline whose registry is safe (`VecsSafe`: for instance empty, or left by
     earlier runs under loaded configurations). Then no event, no line and no history — with sweeps, clock
@@ -597,7 +610,7 @@ theorem loaded_config_scrape_succeeds (rxOk : Bytes → Bool) (db : List V) (dq 
 theorem empty_config_accepted (rxOk : Bytes → Bool) (db : List V) (dq : List (V × V)) (hs : LibraryDefaultsSane db dq) :
     ∃ cfg, load rxOk db dq {} = .ok cfg := by
   have hq : summaryOptsOk dq 0 0 = true :=
-    (summaryOptsOk_iff dq 0 0).mpr ⟨hs.quantiles, Int.le_refl 0, fun h => absurd rfl h⟩
+    (summaryOptsOk_iff dq 0 0).mpr ⟨hs.quantiles, Int.le_refl 0, by decide⟩
   cases hl : load rxOk db dq {} with
   | ok cfg => exact ⟨cfg, rfl⟩
   | error e =>
@@ -684,26 +697,27 @@ example : queryPanics 3 (2 : Int) = true := by decide
 theorem now_rejects_bad_objective : ∃ e, load (fun _ => true) db0 dq0 rawBadObjective = .error e :=
   rejects_bad_default_summary_options _ _ _ rawBadObjective (by decide)
 
-/-- the `uint32` hypothesis of `LoaderAssumptions` cannot be dropped *in the model*, whose `age_buckets` is an
-    unbounded `Nat`: with `age_buckets: 10^12` (not a `uint32`) and `max_age` unset the configuration loads, yet
-    the stream duration `600000000000 / 10^12` is zero. -/
+/-- defaults: `observer_type: summary`, `summary_options: {max_age: 30ns}`: the stream duration `30 / 5` is six
+    nanoseconds, not zero -/
+def rawNanosecondMaxAge : RawConfig Int :=
+  { defaults := { observerType := some (strBytes "summary"), summaryOpts := { maxAge := 30 } } }
+
+/-- **A stream duration of a few nanoseconds is now rejected** (the loader repaired by 05034cf rejected only a stream
+    duration of zero and accepted this: client_golang's `swapBufs` advances the buffer expiry in steps of the stream
+    duration until it has caught up with the wall clock, and with a step shorter than one loop iteration it never
+    does - the first scrape or observation after the summary was created did not return; found when the C19 stream
+    got `max_age` values of a few nanoseconds). The loader now wants at least a millisecond per age bucket. -/
+theorem now_rejects_nanosecond_stream_duration : ∃ e, load (fun _ => true) db0 dq0 rawNanosecondMaxAge = .error e :=
+  rejects_bad_default_summary_options _ _ _ rawNanosecondMaxAge (by decide)
+
+/-- `age_buckets: 10^12` with `max_age` unset: the default ten-minute window split into 10^12 buckets has a stream
+    duration of zero. The old model needed the `uint32` hypothesis of `LoaderAssumptions` to exclude it (and a
+    `uint32` as large as 4·10^9 still gave 150ns); the loader now computes the effective window itself and rejects it. -/
 def rawHugeAgeBuckets : RawConfig Int :=
   { defaults := { observerType := some (strBytes "summary"), summaryOpts := { ageBuckets := 1000000000000 } } }
 
-theorem uint32_assumption_needed :
-    ∃ cfg, load (fun _ => true) db0 dq0 rawHugeAgeBuckets = .ok cfg ∧ ¬ ConfigSafe cfg := by
-  cases hl : load (fun _ => true) db0 dq0 rawHugeAgeBuckets with
-  | error e =>
-    have : (load (fun _ => true) db0 dq0 rawHugeAgeBuckets).toBool = true := by with_unfolding_all decide
-    rw [hl] at this; cases this
-  | ok cfg =>
-    refine ⟨cfg, rfl, fun hc => ?_⟩
-    have hk : (match load (fun _ => true) db0 dq0 rawHugeAgeBuckets with | .ok c => configOk c | .error _ => true) = false := by
-      with_unfolding_all decide
-    rw [hl] at hk
-    change configOk cfg = false at hk
-    rw [((config_safe_iff cfg).mp hc).1] at hk
-    cases hk
+theorem now_rejects_huge_age_buckets : ∃ e, load (fun _ => true) db0 dq0 rawHugeAgeBuckets = .error e :=
+  rejects_bad_default_summary_options _ _ _ rawHugeAgeBuckets (by decide)
 
 /-! ### Non-vacuity of (a) and (b) -/
 
@@ -794,7 +808,7 @@ example : (match load (fun _ => true) db0 dq0 rawTwoHelps with
 
 /-- a summary-typed configuration with its own quantiles, `max_age` and `age_buckets` that is accepted -/
 private def rawGoodSummary : RawConfig Int :=
-  { defaults := { observerType := some (strBytes "summary"), summaryOpts := { quantiles := [(1, 0)], maxAge := 10, ageBuckets := 2 } },
+  { defaults := { observerType := some (strBytes "summary"), summaryOpts := { quantiles := [(1, 0)], maxAge := 10000000000, ageBuckets := 2 } },
     rules := [{ matchStr := strBytes "a.*", name := [98], summaryOpts := some (some [(0, 0)], 0, 3, 0) }] }
 
 example : (load (fun _ => true) db0 dq0 rawGoodSummary).toBool = true := by with_unfolding_all decide
